@@ -19,6 +19,10 @@ Anonymous constructors (`_ key:Bool ... = KeyMaxLt`) are given the type's name a
 CTORS maps every constructor name to (TL-B type name, constructor label such as 'validators#11'): used by the check to
 name a failure after the innermost type that holds the differing field.
 
+Generation-only variants (*Gen: ShardDescrGen, ShardHashesGen, McStateExtraGen, ...) have the SAME encoding as the canonical
+type; they only keep the two inline amounts of the old shard_descr#b small enough for the value to fit its cell.
+*_pruned / exotic_ok variants accept pruned branches (decoding the Merkle update of the real block).
+
 Helpers on top of reftlb's public API
   variant(record, field=type, ...)   the same constructor with some field types replaced (Const(...), one alternative of a
                                      Union, Present(T) / Absent(T) for a Maybe) - to ENUMERATE flag / optional combinations
